@@ -774,6 +774,37 @@ class Tree:
     parent_name: Optional[str] = None
 
 
+@dataclass
+class BinTree:
+    value: int
+    left: Optional["BinTree"] = None
+    right: Optional["BinTree"] = None
+
+
+def bintree_spec():
+    """a model with TWO fields leading back to it through identical locations (Optional[BinTree]); meant to be requested through
+    an enclosing type (list / Optional / dict / model field), where the recursion stubs of both fields are pending at once"""
+    int_s = Spec(hint=int, ty=["scalar", "int"], gen=_int, kind="scalar:int")
+    none_s = Spec(hint=None, ty=["scalar", "none"], gen=lambda r: None, kind="scalar:none")
+
+    def g(r, depth=3):
+        def sub():
+            return g(r, depth - 1) if depth > 0 and r.random() < 0.6 else None
+        return BinTree(value=_int(r), left=sub(), right=sub())
+    spec = Spec(hint=BinTree, ty=["model", "BinTree"], gen=g, kind="model", hashable=False)
+    opt = Spec(hint=Optional[BinTree], ty=["union", [["model", "BinTree"], none_s.ty], ["BinTree", "NoneType"]],
+               gen=lambda r: None, kind="union", children=[none_s])
+    spec.children = [int_s, opt, opt]
+    spec.fields = [
+        {"name": "value", "ty": int_s.ty, "required": True, "default": ["n"]},
+        {"name": "left", "ty": opt.ty, "required": False, "default": ["n"]},
+        {"name": "right", "ty": opt.ty, "required": False, "default": ["n"]},
+    ]
+    spec.field_specs = [("value", int_s, True), ("left", opt, False), ("right", opt, False)]
+    spec.cls = BinTree
+    return spec
+
+
 def tree_spec():
     int_s = Spec(hint=int, ty=["scalar", "int"], gen=_int, kind="scalar:int")
     str_s = Spec(hint=str, ty=["scalar", "str"], gen=_txt, kind="scalar:str")
@@ -1397,6 +1428,8 @@ class Engine:
             elif related and i % 8 == 3:
                 sp = tg.related_union()
                 out.append(tg.wrap(self.ctx.rng.choice(["id", "id", "list", "dict", "model"]), sp))
+            elif i % 37 == 11:
+                out.append(tg.wrap(self.ctx.rng.choice(["list", "list", "dict", "model", "tuple"]), bintree_spec()))
             else:
                 out.append(tree_spec() if i % 37 == 5 else tg.gen(depth))
         return out
